@@ -34,7 +34,7 @@ func runModeNormal(procs *[]Process) (exitNum int) {
 
 			if ((*procs)[i].OperatorLogicAnd && (*procs)[prev].ExitNum != 0) ||
 				((*procs)[i].OperatorLogicOr && (*procs)[prev].ExitNum == 0) ||
-				(skipPipeline && ((*procs)[i].OperatorLogicAnd || (*procs)[i].OperatorLogicOr)) {
+				(skipPipeline && ((*procs)[i].OperatorLogicAnd || (*procs)[i].OperatorLogicOr || (*procs)[i].IsMethod)) {
 
 				(*procs)[i].SetTerminatedState(true)
 				(*procs)[i].ExitNum = (*procs)[prev].ExitNum
